@@ -34,6 +34,8 @@ S = Suite(
           "(thorough: also n=64 and seeded random parameters), MOST/MOSTM/CONSTANT closures "
           "of vertical_profiles (n=8..12), grids <= 9x8 cells, every non-constant, non-Nyquist "
           "retained component with |T|dz^2/Kz<=1 in every coarse layer and sum Re(lam)dz<=18; "
+          "output heights requested as scalar, ascending, descending, unsorted and repeated "
+          "node selections (slot k judged against the exact solution at the k-th height); "
           "refinement chain n -> 4n -> 16n (thorough also 64 -> 256 -> 1024)",
     rule="per component: err = max over levels |H-Hexact| / max over levels |Hexact| (conc and "
          "flux); err <= 3*max(dz/z) on every grid and err(n)/err(4n) >= 2.5 "
@@ -225,7 +227,7 @@ def refine(wind, K, aniso, grid, z0, zt, n, factors, nx, ny, X, Y, modes, level_
         levc = int(round(level_fracs * n))
         zlev = [zc[levc]]
     else:
-        levc = sorted(set(int(round(f * n)) for f in level_fracs))
+        levc = [int(round(f * n)) for f in level_fracs]     # order and repeats as requested
         zlev = zc[levc]
     Hp, Hq = riccati_oracle(prof, z0, zt, zlev, kx, ky)
     errs, rels = [], []
@@ -267,7 +269,7 @@ def closure(closure, n, zm, wind, ustar, mol, stretch, factors, nx, ny, X, Y, le
     nsel = int(sel.sum())
     if nsel == 0:
         return Verdict(True, "no resolved component", nontrivial=False)
-    levc = sorted(set(int(round(f * mt)) for f in level_fracs))
+    levc = [int(round(f * mt)) for f in level_fracs]         # order and repeats as requested
     Hp, Hq = riccati_oracle(prof, z0, zt, zc_t[levc], kx, ky, rtol=1e-10)
     errs, rels = [], []
     for f in [1] + list(factors):
@@ -298,6 +300,17 @@ KS = [
 ]
 ANISO = [(1.0, 1.0), (2.0, 0.5)]
 LEVELS = [0.0, 0.25, 0.5, 1.0]
+# "every requested output height": the request is an ORDERED selection of nodes.  Slot k of the
+# result is compared with the exact solution at the k-th requested height, so ascending,
+# descending, unsorted and repeated requests are all part of the family.
+LEVEL_ORDERS = [
+    [0.0, 0.25, 0.5, 1.0],        # ascending incl. surface and top node
+    [1.0, 0.5],                   # top node first
+    [1.0, 0.5, 0.25, 0.0],        # descending
+    [0.5, 1.0, 0.25],             # unsorted
+    [0.25, 0.75, 0.25, 1.0],      # a level repeated out of order
+    [0.75, 0.125],                # descending, interior only
+]
 
 
 def generate(tier, rng):
@@ -313,7 +326,8 @@ def generate(tier, rng):
                 full = (nx, ny) if (nx % 2 == 0 and ny % 2 == 0) else (512, 512)
                 modes = (4, 4) if (c % 5 == 0 and nx % 2 == 0 and ny % 2 == 0) else full
                 X = (300.0, 1500.0, 700.0)[c % 3]
-                lv = LEVELS if c % 4 else 0.5          # scalar level every 4th case
+                # scalar level every 4th case, otherwise cycle through the request orders
+                lv = LEVEL_ORDERS[c % len(LEVEL_ORDERS)] if c % 4 else 0.5
                 yield "refine", dict(
                     wind=w, K=K, aniso=list(an), grid=g,
                     z0=0.5 if g == "uniform" else 0.1, zt=10.0, n=16,
@@ -325,7 +339,8 @@ def generate(tier, rng):
                         wind=w, K=K, aniso=list(ANISO[(wi + ki + gi + 1) % 2]), grid=g,
                         z0=0.5 if g == "uniform" else 0.1, zt=10.0, n=64, factors=[4, 16],
                         nx=ny, ny=nx, X=0.5 * X, Y=0.6 * X, modes=[512, 512],
-                        level_fracs=LEVELS, seed=rng.randrange(10 ** 6))
+                        level_fracs=LEVEL_ORDERS[(c + 3) % len(LEVEL_ORDERS)],
+                        seed=rng.randrange(10 ** 6))
     # closures of the real vertical_profiles
     clos = [("MOST", -50.0), ("MOST", 80.0), ("MOSTM", -30.0), ("MOSTM", 1e9),
             ("CONSTANT", 1e9), ("MOST", 1e9)]
@@ -334,7 +349,8 @@ def generate(tier, rng):
             closure=cl, n=8 + 2 * (i % 3), zm=5.0, wind=[3.0, 1.0] if i % 2 else [-2.0, 2.5],
             ustar=0.4 if i % 2 else 0.3, mol=mol, stretch=None if i % 3 else 8.0,
             factors=[4, 16], nx=8, ny=6, X=(400.0, 1200.0)[i % 2],
-            Y=(300.0, 1000.0)[i % 2], level_fracs=LEVELS, seed=rng.randrange(10 ** 6))
+            Y=(300.0, 1000.0)[i % 2], level_fracs=LEVEL_ORDERS[i % len(LEVEL_ORDERS)],
+            seed=rng.randrange(10 ** 6))
     # seeded random members of the same families (thorough only)
     if thorough:
         for _ in range(120):
@@ -364,7 +380,9 @@ def generate(tier, rng):
                 z0=rng.uniform(0.3, 0.8) if g == "uniform" else rng.uniform(0.05, 0.3),
                 zt=rng.uniform(6.0, 15.0), n=16, factors=[4, 16],
                 nx=nx, ny=ny, X=X, Y=X * rng.uniform(0.6, 1.4), modes=[512, 512],
-                level_fracs=LEVELS, seed=rng.randrange(10 ** 6))
+                level_fracs=rng.choice(LEVEL_ORDERS + [rng.sample(
+                    [0.0, 0.125, 0.25, 0.5, 0.75, 1.0], rng.randint(2, 4))]),
+                seed=rng.randrange(10 ** 6))
 
 
 if __name__ == "__main__":
